@@ -9,6 +9,7 @@
 import ChessVerif.Proofs.SearchGo
 import ChessVerif.Proofs.SearchTime
 import ChessVerif.Proofs.SearchDemo
+import ChessVerif.Proofs.SearchSoftHardGo
 
 namespace ChessVerif.Props.C08
 open ChessVerif Search
@@ -52,5 +53,89 @@ example (K : Keys) (clock : Clock) (fuel : Nat) (e : Engine Unit) :
     (go (demoComp K) { depth := 5, nodes := 100, softNodes := 0, softTime := 0, stop := some 7, ponder := none, output := true }
       clock fuel e Board.empty).st.nodes ≤ 100 :=
   nodes_le_budget (demoComp K) _ clock (demo_laws K) fuel e Board.empty noMen_empty 0 (by decide) (by decide)
+
+/-! ### soft node limit ≡ hard node budget (`Proofs/SearchSoftHard{Q,AB,Go}.lean`) -/
+
+/-- Soft ≡ hard, strong form.  Let `r` be a search without hard node budget, stop channel and ponder
+    channel, and `N := r.st.nodes` the node count it ended with — for whatever reason (soft node
+    limit, soft time limit, depth limit, iteration 64, even fuel).  The same search with the hard
+    budget `N` and the soft node limit switched off returns the same score, move and ponder move,
+    the same node count, the same persistent state `ps` (transposition table, histories, generation
+    counter), the same board / history stack / move-store depth / poll count / anomaly flag, and
+    prints the same lines followed by AT MOST ONE extra line: the abort notice
+    `info depth D+1 nodes N` of search.go:76.
+
+    Neither `Laws`, nor `Good b`, nor `move ≠ 0`, `N > softNodes`, `0 < softNodes`, `softTime ≤ 0`,
+    `fuelOut = false` are needed: while the first run has not reached its end, every
+    `incrementNodes` of the second run sees `nodes < N` and the two runs are identical
+    (`alphaBeta_sim`); where the first run returned at its soft limit (which requires `move ≠ 0`) the
+    second one either leaves the loop too (depth limit reached, or iteration 63 was the last: then
+    NO notice is printed and the two results are equal in every field) or enters the next
+    iteration, whose root node is refused by `incrementNodes` before any persistent update
+    (`alphaBeta_refused`): the aspiration loop sees the abort flag, the notice is printed when
+    `opts.Output != nil`, and the carried score / move / ponder move are returned (`move ≠ 0`, so no
+    fallback to the first legal move).
+
+    What is NOT equal after a refused iteration (scratch fields of the `Search` object):
+    * `st.pv` — the refused root call executed `s.pv.setNull(0)`, so row 0 is empty in the hard run
+      while it holds the principal variation in the soft run;
+    * `st.abNodes` — larger by one: Go's `opts.Counters.ABNodes++` runs after the refused
+      `incrementNodes` (not when the refused root call went to `quiescence`, depth 0);
+    * `st.aborted` — `true` in the hard run, `false` in the soft run (`refresh()` clears it, see
+      `C06.go_reusable`);
+    * `out` — the notice line. -/
+theorem soft_eq_hard_strong (c : Comp σ π) (clock : Clock) (L : Limits) (fuel : Nat) (e : Engine σ) (b : Board)
+    (hn : L.nodes = -1) (hs : L.stop = none) (hp : L.ponder = none) :
+    let r := go c L clock fuel e b
+    let r' := go c { L with nodes := r.st.nodes, softNodes := 0 } clock fuel e b
+    r'.score = r.score ∧ r'.move = r.move ∧ r'.ponder = r.ponder ∧ r'.st.nodes = r.st.nodes ∧ r'.st.ps = r.st.ps ∧
+      r'.st.board = r.st.board ∧ r'.st.hstack = r.st.hstack ∧ r'.st.frames = r.st.frames ∧
+      r'.st.polls = r.st.polls ∧ r'.st.anomaly = r.st.anomaly ∧
+      (r'.out = r.out ∨
+        ∃ d, r'.out = { depth := d, full := false, score := 0, nodes := r.st.nodes, time := 0, hashfull := 0, pv := [] } :: r.out) := by
+  intro r r'
+  have h : HardRel r' r :=
+    go_sim c (L1 := L) (L2 := { L with nodes := r.st.nodes, softNodes := 0 }) ⟨hn, hs, rfl, hs⟩ rfl rfl rfl
+      (Int.le_refl 0) hp hp clock fuel e b 0 (Int.le_refl 0) rfl
+  exact ⟨h.score, h.move, h.ponder, h.st.nodes, h.st.ps, h.st.board, h.st.hstack, h.st.frames, h.st.polls,
+    h.st.anomaly, h.out⟩
+
+/-- `C08_full_soft_eq_hard` holds (for every `Comp`; its hypotheses `Laws`, `Good b`, `softTime ≤ 0`,
+    `0 < softNodes`, `fuelOut = false`, `move ≠ 0`, `nodes > softNodes` are not used). -/
+theorem soft_eq_hard (c : Comp σ π) (clock : Clock) {Good : Board → Prop} : C08_full_soft_eq_hard c clock Good := by
+  intro _ L fuel e b _ hn hs hp _ _ r _ _ _ r'
+  have h : HardRel r' r :=
+    go_sim c (L1 := L) (L2 := { L with nodes := r.st.nodes, softNodes := 0 }) ⟨hn, hs, rfl, hs⟩ rfl rfl rfl
+      (Int.le_refl 0) hp hp clock fuel e b 0 (Int.le_refl 0) rfl
+  exact ⟨h.score, h.move, h.ponder, h.st.nodes, h.st.ps, h.full_lines⟩
+
+/-- The info lines: the hard-budget run prints the lines of the soft-limit run and at most one more,
+    the abort notice `info depth d nodes N` (none when output is off, or when the soft limit was hit
+    in the last iteration the depth limit / `MaxPlies` allows). -/
+theorem soft_eq_hard_lines (c : Comp σ π) (clock : Clock) (L : Limits) (fuel : Nat) (e : Engine σ) (b : Board)
+    (hn : L.nodes = -1) (hs : L.stop = none) (hp : L.ponder = none) :
+    let r := go c L clock fuel e b
+    let r' := go c { L with nodes := r.st.nodes, softNodes := 0 } clock fuel e b
+    r'.out = r.out ∨
+      ∃ d, r'.out = { depth := d, full := false, score := 0, nodes := r.st.nodes, time := 0, hashfull := 0, pv := [] } :: r.out :=
+  (soft_eq_hard_strong c clock L fuel e b hn hs hp).2.2.2.2.2.2.2.2.2.2
+
+/-- non-vacuity: the hypotheses of `soft_eq_hard_strong` are three equations on the options; here
+    with a soft node limit of 3 on `demoComp`.  (On the boards without men — the only family with a
+    hand-checked `Laws` instance — no search returns a move, so the extra hypothesis `move ≠ 0` of
+    `C08_full_soft_eq_hard` cannot be exhibited there; the strong form does not have it.  Running the
+    model, `#eval`, on `4k1n1/8/8/8/8/8/8/4K1N1 w` with `demoComp`, `softNodes := 3`, depth 5: the
+    soft run ends after iteration 1 with `N = 10` nodes and a move; the hard run with budget 10
+    returns the same move/score and prints the additional line `info depth 2 nodes 10`, with
+    `abNodes` 2 instead of 1 and `aborted = true`.) -/
+example (K : Keys) (clock : Clock) (fuel : Nat) (e : Engine Unit) :
+    let L : Limits := { depth := 5, nodes := -1, softNodes := 3, softTime := 0, stop := none, ponder := none, output := true }
+    let N := (go (demoComp K) L clock fuel e Board.empty).st.nodes
+    (go (demoComp K) { L with nodes := N, softNodes := 0 } clock fuel e Board.empty).st.ps =
+      (go (demoComp K) L clock fuel e Board.empty).st.ps :=
+  (soft_eq_hard_strong (demoComp K) clock _ fuel e Board.empty rfl rfl rfl).2.2.2.2.1
+
+example (K : Keys) (clock : Clock) : C08_full_soft_eq_hard (demoComp K) clock NoMen ∧ Laws (demoComp K) NoMen ∧ NoMen Board.empty :=
+  ⟨soft_eq_hard _ _, demo_laws K, noMen_empty⟩
 
 end ChessVerif.Props.C08
